@@ -396,6 +396,12 @@ def c15_machine(name, defs, flavour, tier='quick'):
 c15_machine('all_single', {}, 'single'); c15_machine('all_dev', {}, 'dev')
 c15_machine('none_single', {'VM_FEATURES': 0}, 'single'); c15_machine('plans_serial_single', {'VM_FEATURES': 1}, 'single'); c15_machine('history_utility_single', {'VM_FEATURES': 2}, 'single')
 c15_machine('none_dev', {'VM_FEATURES': 0}, 'dev', tier='thorough'); c15_machine('plans_serial_dev', {'VM_FEATURES': 1}, 'dev', tier='thorough'); c15_machine('history_utility_dev', {'VM_FEATURES': 2}, 'dev', tier='thorough')
+# C05: handlers injected through StateT<...> (resumable machine, every state carries one injected handler)
+_m = Machine('inject', 'tier_c/m_resumable.cpp', [-1, 0, 0, 2, 2, 0], ['C', 'L', 'C', 'L', 'L', 'L'], defs={'VM_INJECT': None})
+for _c in range(_m.count(0)):
+    for _e in ('step_order_update', 'step_order_react', 'step_order_query'):
+        job(id='C.inject.%s.c%d' % (_e[5:], _c), tu=_m.tu, defs=_m.defs, entry=_e, key=[_c], props=['C05', 'C03'], quick_for=['C05'], unwind=12, objbits=12, timeout=900,
+            carriers=[r'A_<.*>::wideUpdate|A_<.*>::widePreUpdate', r'A_<.*>::widePostUpdate|A_<.*>::widePostReact'], case_key='inject/%s/cfg=%d' % (_e[5:], _c))
 # Config option chains: bottom-up reactions alone, and with head-room options chained after / before it (C15: options never change unrelated behaviour; C05: bottom-up order)
 for opt in (1, 2, 3):
     m = Machine('options%d' % opt, 'tier_c/m_resumable.cpp', [-1, 0, 0, 2, 2, 0], ['C', 'L', 'C', 'L', 'L', 'L'], defs={'VM_OPTIONS': opt})
